@@ -905,8 +905,8 @@ fn pattern(rng: &mut Rng, n: usize, utf8: bool) -> Vec<u8> {
 }
 
 pub fn gen_case(rng: &mut Rng, idx: usize, big: bool) -> Case {
-    let kind = rng.below(12);
-    let string_api = kind == 11;
+    let kind = rng.below(13);
+    let string_api = kind >= 11;
     let has_in = rng.chance(2, 3);
     let mut has_out = rng.chance(4, 5);
     let has_err = rng.chance(1, 2);
@@ -925,7 +925,7 @@ pub fn gen_case(rng: &mut Rng, idx: usize, big: bool) -> Case {
     let (cap_in, cap_out, cap_err) = (cap(rng), *rng.pick(&[1usize, 100, 4096, 65536, 65536]), *rng.pick(&[1usize, 4096, 65536]));
     // child script
     let mut script = vec![];
-    let style = rng.below(7);
+    let style = rng.below(8);
     let nact = 1 + rng.below(if big { 60 } else { 14 }) as usize;
     let mut produced = 0usize;
     for i in 0..nact {
@@ -969,6 +969,20 @@ pub fn gen_case(rng: &mut Rng, idx: usize, big: bool) -> Case {
                     CAct::Write(rng.chance(1, 2), pattern(rng, n, false))
                 }
             }
+            // whole blocks on one stream (which then stays open and silent), then more than a pipe holds on the other:
+            // a parent that keeps reading the first stream "while the reads come back full" blocks there
+            7 => {
+                let first = i == 0 || (i % 4 == 0);
+                if first {
+                    let n = 4096 * (1 + rng.below(3) as usize);
+                    CAct::Write(i % 8 == 4, pattern(rng, n, false))
+                } else if i % 4 == 1 {
+                    let n = *rng.pick(&[70_000usize, 140_000]);
+                    CAct::Write(i % 8 != 5, pattern(rng, n, false))
+                } else {
+                    CAct::Sleep
+                }
+            }
             _ => match rng.below(5) {
                 0 => CAct::ReadIn(*rng.pick(&SIZES)),
                 1 | 2 => {
@@ -994,6 +1008,44 @@ pub fn gen_case(rng: &mut Rng, idx: usize, big: bool) -> Case {
     if big && style == 3 {
         for _ in 0..200 {
             script.push(CAct::Write(false, pattern(rng, 4096, false)));
+        }
+    }
+    if string_api {
+        // text variants: what the child writes is (mostly) UTF-8 text with multi-byte characters, cut at an arbitrary
+        // byte -- so a stream may end in the middle of a character -- or carrying a stray invalid byte
+        for stream in [false, true] {
+            let style = rng.below(3);
+            if style == 0 {
+                continue; // arbitrary bytes, as generated
+            }
+            let total: usize = script.iter().map(|a| if let CAct::Write(e, d) = a { if *e == stream { d.len() } else { 0 } } else { 0 }).sum();
+            let unit = "a\u{e9}\u{20ac}\u{1f600}z\u{4e2d}".as_bytes();
+            let off = rng.below(unit.len() as u64) as usize;
+            let mut text: Vec<u8> = (0..total + unit.len()).map(|i| unit[(i + off) % unit.len()]).collect();
+            // start on a character boundary
+            while !text.is_empty() && (text[0] & 0xC0) == 0x80 {
+                text.remove(0);
+            }
+            text.truncate(total);
+            if style == 2 && total > 2 {
+                let k = rng.below(total as u64) as usize;
+                text[k] = 0xFF;
+            }
+            let mut pos = 0;
+            for a in script.iter_mut() {
+                if let CAct::Write(e, d) = a {
+                    if *e == stream {
+                        let n = d.len().min(text.len() - pos.min(text.len()));
+                        let m = d.len();
+                        d.clear();
+                        d.extend_from_slice(&text[pos.min(text.len())..pos.min(text.len()) + n]);
+                        while d.len() < m {
+                            d.push(b'.');
+                        }
+                        pos += m;
+                    }
+                }
+            }
         }
     }
     // session of read() calls
